@@ -5,16 +5,42 @@ import json, os, re, glob, sys
 
 root = '/verif/seeded'
 matrix = {}
-mt = os.path.join(root, 'matrix.tsv')
-if os.path.exists(mt):
+# every matrix file, oldest first; the latest run of a (seed, check) pair wins, a detection is never forgotten
+def mkey(p):
+    m = re.search(r'matrix(\d*)(\w*)\.tsv', os.path.basename(p))
+    return (int(m.group(1) or 1), m.group(2))
+for mt in sorted(glob.glob(os.path.join(root, 'matrix*.tsv')), key=mkey):
     for line in open(mt):
         f = line.rstrip('\n').split('\t')
         if len(f) < 4 or not f[0].startswith('C'):
             continue
-        matrix.setdefault(f[0], []).append({
-            'check': f[1], 'exit': f[2].replace('exit=', ''),
-            'violations': f[3].replace('violations=', ''),
-            'labels': (f[-1].split() if len(f) > 4 and not f[-1].startswith('broken=') else [])})
+        row = {'check': f[1], 'exit': f[2].replace('exit=', ''),
+               'violations': f[3].replace('violations=', ''),
+               'labels': (f[-1].split() if len(f) > 4 and not f[-1].startswith('broken=') else []),
+               'run': os.path.basename(mt)}
+        rows = matrix.setdefault(f[0], {})
+        prev = rows.get(f[1])
+        if prev is None or not (prev['exit'] == '1' and row['exit'] != '1'):
+            rows[f[1]] = row
+matrix = {k: list(v.values()) for k, v in matrix.items()}
+
+def section(lines, pat):
+    """the text under the first heading or lead-in matching pat (or the matching line itself)"""
+    for i, l in enumerate(lines):
+        if re.search(pat, l, re.I):
+            body = re.sub(r'^[-*#\s]+', '', l)
+            body = re.sub(r'^\**[^:*]{0,60}\**:?\**\s*', '', body) if l.startswith('#') else body
+            if l.startswith('#') or len(body) < 25:
+                rest = []
+                for m in lines[i+1:]:
+                    if m.startswith('#'):
+                        break
+                    rest.append(re.sub(r'^[-*]\s*', '', m))
+                    if sum(len(x) for x in rest) > 500:
+                        break
+                return ' '.join(rest)
+            return re.sub(r'^[-*]\s*', '', l)
+    return ''
 
 for d in sorted(glob.glob(os.path.join(root, 'C*-*'))):
     sid = os.path.basename(d)
@@ -22,21 +48,8 @@ for d in sorted(glob.glob(os.path.join(root, 'C*-*'))):
     note = open(os.path.join(d, 'note.md')).read() if os.path.exists(os.path.join(d, 'note.md')) else ''
     lines = [l.strip() for l in note.splitlines() if l.strip()]
     title = re.sub(r'^#+\s*', '', lines[0]) if lines else ''
-    needs = ''
-    for l in lines:
-        if re.match(r'^[-*]?\s*\**(Need|What it needs|Needed|Requires|Manifest)', l, re.I):
-            needs = re.sub(r'^[-*]\s*', '', l)
-            break
-    if not needs:
-        for l in lines:
-            if re.search(r'\bneed(s|ed)?\b|manifest', l, re.I):
-                needs = re.sub(r'^[-*]\s*', '', l)
-                break
-    breaks = ''
-    for l in lines:
-        if re.search(r'clause|break', l, re.I):
-            breaks = re.sub(r'^[-*]\s*', '', l)
-            break
+    needs = section(lines, r'^[-*#\s]*\**(what (it|is) need|need|requires|manifest|trigger|when it shows)') or section(lines, r'\bneed(s|ed)?\b|manifest|trigger')
+    breaks = section(lines, r'^[-*#\s]*\**(property )?clause|^[-*#\s]*\**(what it )?breaks') or section(lines, r'clause|break')
     confirm = {}
     cf = os.path.join(d, 'confirm.txt')
     if os.path.exists(cf):
